@@ -62,6 +62,7 @@ func applyMutations(m sdk.Msg, st *Step) {
 type genC05 struct {
 	inner *genStorage
 	nAcc  int
+	giant bool // this run also stores files with declared sizes near MaxInt64 (paid for: the accounts are rich)
 }
 
 func (g *genC05) Config(rng *Rng, tier string) Config {
@@ -98,6 +99,7 @@ func (g *genC05) Config(rng *Rng, tier string) Config {
 			c.Mint.TokensPerBlock, c.Mint.MintDecrease = rng.Pick64(0, 1, 4_200_000, 1_000_000_000_000), rng.Pick64(0, 6, blocksPerYear, 1000*blocksPerYear)
 		}
 	}
+	g.giant = rng.Chance(1, 2)
 	c.Storage.CheckWindow = rng.Range(2, 6) // many reward blocks
 	c.SeedNames = []SeedName{{Name: "victim", Tld: "jkl", Owner: 1, Expires: c.InitialHeight + 20}}
 	if rng.Chance(1, 2) {
@@ -111,6 +113,14 @@ func (g *genC05) NBlocks() int { return g.inner.NBlocks() }
 func (g *genC05) Block(w *World, b int) Block {
 	rng := w.rng
 	blk := g.inner.Block(w, b)
+	if g.giant && rng.Chance(1, 3) {
+		u := g.inner.users[rng.Intn(len(g.inner.users))]
+		f := rng.Intn(g.inner.nFiles)
+		size := rng.Pick64(math.MaxInt64, math.MaxInt64, math.MaxInt64-1000, math.MaxInt64/2+7, math.MaxInt64/3)
+		st := txStep(mkOp("post_file", u).withN("file", int64(f)).withN("max", 1).withN("size", size).withN("expires_in", rng.Pick64(14400, 15000, 30000)))
+		st.Fault = "boundary_values"
+		blk.Steps = append(blk.Steps, st)
+	}
 	n := rng.Intn(4)
 	for i := 0; i < n; i++ {
 		v := 1 + rng.Intn(g.nAcc-1)
